@@ -93,11 +93,18 @@ def rerun(programs):
             "    except Exception as e:\n"
             "        out.append([])\n"
             "import shutil; shutil.rmtree(w.tmpdir, ignore_errors=True)\n"
-            "json.dump(out, sys.stdout)\n") % VERIF
-    p = subprocess.run([sys.executable, '-c', code], input=json.dumps(programs), capture_output=True, text=True)
-    if p.returncode != 0:
-        raise MachineryError('re-execution failed: ' + p.stderr[-2000:])
-    return json.loads(p.stdout)
+            "json.dump(out, open(sys.argv[1], 'w'))\n") % VERIF
+    import tempfile
+    fd, outpath = tempfile.mkstemp(prefix='verif_rr_', suffix='.json', dir='/dev/shm')
+    os.close(fd)
+    try:
+        p = subprocess.run([sys.executable, '-c', code, outpath], input=json.dumps(programs), capture_output=True, text=True)
+        if p.returncode != 0:
+            raise MachineryError('re-execution failed: ' + p.stderr[-2000:])
+        with open(outpath) as f:
+            return json.load(f)
+    finally:
+        os.remove(outpath)
 
 
 def confirm(check):
